@@ -211,11 +211,12 @@ func Run(flags *Flags, opts ...Option) {
 		log.Fatalf("Error creating local db: %s", err)
 	}
 
+	writeBackStore := writeback.NewStore(localDB)
 	writeBackManager, err := persistedretry.NewManager(
 		config.WriteBack,
 		stats,
-		writeback.NewStore(localDB),
-		writeback.NewExecutor(stats, cas, backendManager))
+		writeBackStore,
+		writeback.NewExecutor(stats, cas, backendManager, writeback.WithTaskFinder(writeBackStore)))
 	if err != nil {
 		log.Fatalf("Error creating write-back manager: %s", err)
 	}
